@@ -1,4 +1,15 @@
 ------------------------------ MODULE MCTwoPC ------------------------------
 (* Model-checking wrapper of TwoPC.tla (constants are set per configuration). *)
 EXTENDS TwoPC
+
+\* scope of the "double winner without the sender-time filter" search (MC3PinnedLocal.cfg):
+\* writer 2 runs one section, sections are given up only once prepared or failed
+DWScope == /\ sect'[2] <= 1
+           /\ act'[1] = "abort" => op[act'[2]] \in {"prepared", "failed"}
+           /\ act'[1] # "solo"
+
+\* simulation runs that export schedules: keep the random walks interesting (no section is
+\* given up before its PreCommit, the solo phase starts when every writer used its sections)
+SimScope == /\ act'[1] = "abort" => op[act'[2]] \in {"prepared", "failed"}
+            /\ act'[1] = "solo" => \A w \in Writers : sect[w] = MaxSect
 =============================================================================
